@@ -18,15 +18,16 @@ func main() {
 		}
 	}
 	r.Register("hist", dh.RunHist)
+	r.Register("stale", dh.RunStale)
 	if r.Replayed() {
 		return
 	}
 	dh.Corpus(r)
-	dh.Generate(r, 2, []int{2}, 3)
+	dh.Generate(r, 2, []int{1, 2, 3}, dh.NCfg)
 	if r.Thorough() {
-		dh.Exhaustive(r, 2, 4, 10)
-		dh.Exhaustive(r, 2, 5, 6)
+		dh.Exhaustive(r, 2, 4, 13)
+		dh.Exhaustive(r, 2, 5, 8)
 	} else {
-		dh.Exhaustive(r, 2, 3, 7)
+		dh.Exhaustive(r, 2, 3, 13)
 	}
 }
